@@ -345,6 +345,7 @@ pub fn verif_load(name: &str, content: Option<Vec<u8>>) -> anyhow::Result<crate:
         .graph
         .files
         .id_from_canonical(to_owned_canon_path(name));
+    loader.enter_file(id)?;
     let (path, bytes) = match content {
         Some(mut c) => {
             c.push(0);
